@@ -4,6 +4,6 @@ import os, sys, json
 sys.path[:0] = ['/verif', '/repo/src']
 from vf.replay import replay
 ARGS = json.loads('{"i": 5, "isfloat": false}')
-r = replay('harness.c04', 'run_result_other', ARGS)
+r = replay('harness.c04', 'run_result_other', ARGS, 'quick')
 print('REPRODUCED: ' + r if r else 'NOT-REPRODUCED')
 sys.exit(1 if r else 0)
